@@ -67,8 +67,8 @@ BOUNDS = {
         "enum_len": 5,
         "all_tags_len": 4,
         "enum_reduced_len": 6,
-        "fuzz_direct": 600000,
-        "fuzz_tags": 160000,
+        "fuzz_direct": 400000,
+        "fuzz_tags": 120000,
         "src": 50000,
         "rt": 60000,
         "growth_scale": 2,
